@@ -538,6 +538,18 @@ func (cw *c01World) judgeHTTP(c *c01Conn, oi int, inv uint64, method, host, path
 	if r.err != nil {
 		x.Ev("c%d o%d http error %v", c.idx, oi, r.err)
 		x.Probe("http-error")
+		// a request that simply gets no answer: on a fault-free network with a quick authenticator,
+		// on a connection the script did not replace meanwhile, every request is answered (by the
+		// masquerade handler or with 233) well within its 30 s
+		retired := r.rc == nil || r.rc != c.rc
+		for _, o := range cw.retired {
+			if o == r.rc {
+				retired = true
+			}
+		}
+		if !retired && cw.clean && x.StallCount() == 0 && cw.authDelayShort() && r.took >= 25*time.Second && r.rc.qc.Context().Err() == nil {
+			x.Violate("http-no-answer", "c%d o%d: %s %s%s got no answer within %v on a live connection and a fault-free network: %v", c.idx, oi, method, host, path, r.took, r.err)
+		}
 		return
 	}
 	x.Ev("c%d o%d http status %d", c.idx, oi, r.status)
